@@ -704,6 +704,12 @@ func (sc *segmentController[T, O]) segments(ctx context.Context, reopenClosed bo
 	for i := range sc.lst {
 		if reopenClosed {
 			if err = sc.lst[i].incRef(ctx); err != nil {
+				// Release the segments pinned in earlier iterations, as selectSegments
+				// does, so a mid-loop failure does not leave them referenced forever
+				// (which would block their idle-close and retention delete).
+				for j := 0; j < i; j++ {
+					r[j].DecRef()
+				}
 				return nil, err
 			}
 		} else {
